@@ -169,10 +169,19 @@ where
 
                     if (buf[*pos - 1] & 0x80) == 0 {
                         // MSB is not set, indicating the end of the length prefix.
-                        let (len, _) = unsigned_varint::decode::u16(buf).map_err(|e| {
-                            tracing::debug!("invalid length prefix: {e}");
-                            io::Error::new(io::ErrorKind::InvalidData, "invalid length prefix")
-                        })?;
+                        let len = match unsigned_varint::decode::u16(buf) {
+                            Ok((len, _)) => len,
+                            Err(e) => {
+                                tracing::debug!("invalid length prefix: {e}");
+                                // Start over, so that polling again after the
+                                // error does not index past the length buffer.
+                                *this.read_state = ReadState::default();
+                                return Poll::Ready(Some(Err(io::Error::new(
+                                    io::ErrorKind::InvalidData,
+                                    "invalid length prefix",
+                                ))));
+                            }
+                        };
 
                         if len >= 1 {
                             *this.read_state = ReadState::ReadData { len, pos: 0 };
@@ -185,6 +194,9 @@ where
                     } else if *pos == MAX_LEN_BYTES as usize {
                         // MSB signals more length bytes but we have already read the maximum.
                         // See the module documentation about the max frame len.
+                        // Start over, so that polling again after the error does
+                        // not index past the length buffer.
+                        *this.read_state = ReadState::default();
                         return Poll::Ready(Some(Err(io::Error::new(
                             io::ErrorKind::InvalidData,
                             "Maximum frame length exceeded",
